@@ -68,8 +68,11 @@ func init() {
 		"guardBy":     pGuardBy,
 		"freeze":      pFreeze,
 		"held":        pHeld,
-		"raceBegin":   pRaceBegin,
-		"raceEnd":     pRaceEnd,
+		"lockCount": func(in *Interp, fn *ssa.Function, a []Value) Value {
+			return mkBV(64, uint64(in.lockCount[in.mutexCell(a[0])]))
+		},
+		"raceBegin": pRaceBegin,
+		"raceEnd":   pRaceEnd,
 		"concurrently": func(in *Interp, fn *ssa.Function, a []Value) Value {
 			if in.heldAny() {
 				in.pendingConc = append(in.pendingConc, a[0])
@@ -327,7 +330,8 @@ func (in *Interp) reportViolation(label string, cond Term, note string) {
 		in.res.addUnknown(in, label)
 		return
 	}
-	in.recordViolation(label, model, note)
+	// a listed finding is matched here as well (an obligation that is concretely false on this path)
+	in.classifyAndRecord(label, symBool(exprOrTrue(cond)), model, note)
 }
 
 func (in *Interp) recordViolation(label string, model map[string]string, note string) {
